@@ -166,6 +166,23 @@ def rule_class(rule):
     return rule.split(":")[0].split("-")[0]
 
 
+def rule_section(rule):
+    """top-level section a mutator edits (pairs are only formed across sections:
+    two edits of the same section can cancel, e.g. an extra and a missing topology row)"""
+    if ":" in rule:
+        return rule.split(":")[1]
+    head = rule.split("-")[0]
+    if head in ("host", "hostfw"):
+        return "host_configurations"
+    if head == "sensitive":
+        return "sensitive_hosts"
+    if head == "step":
+        return "step_limit"
+    if head == "unknown":
+        return "bogus_section"
+    return head
+
+
 def run_base(yobj, tag, rep, pairs=0, record=True):
     """returns set of failing buckets"""
     failed = set()
@@ -202,7 +219,7 @@ def run_base(yobj, tag, rep, pairs=0, record=True):
             except Exception:
                 continue
             rb = muts[j][0]
-            if rb not in second or rb == ra:
+            if rb not in second or rb == ra or rule_section(ra) == rule_section(rb):
                 continue
             if record:
                 rep.evaluated()
